@@ -200,7 +200,7 @@ def _structured_values(sample):
         if isinstance(d, dict):
             out.append(d)
             for k in d:
-                for v in (1.5, None, "x", 2**40, [1]):
+                for v in (1.5, None, "x", 2**40, [1], float("inf"), float("-inf"), float("nan"), 1e40, -1, 256, True):
                     out.append({**d, k: v})
                 out.append({kk: vv for kk, vv in d.items() if kk != k})
     return out
@@ -218,7 +218,7 @@ def _drain_checked(xknx, what):
     return n
 
 
-@standin("C11", cases=_type_cases, kind="enum-native", exhaustive=False, bound="every concrete datapoint type (230) through group_value_write and group_value_response, every concrete RemoteValue class (with value types / ranges / modes / payload lengths where the constructor asks for one) through set(), and the multi-telegram device setters Light.set_color / set_hs_color (individual colour addresses) and Fan.turn_on(speed) (switch + speed address): a fixed battery of 53 values of every Python kind (integers around every octet/word boundary, floats incl. integral ones, nan, infinities, bool, None, str, bytes, lists, tuples, dicts, object()) plus, for structured types, the decoded all-zero value with each field replaced by 13 values and its dict form with fields replaced / removed; a call either raises ConversionError with nothing queued or queues telegrams that serialize into a cEMI frame")
+@standin("C11", cases=_type_cases, kind="enum-native", exhaustive=False, bound="every concrete datapoint type (230) through group_value_write and group_value_response, every concrete RemoteValue class (with value types / ranges / modes / payload lengths where the constructor asks for one) through set(), and the multi-telegram device setters Light.set_color / set_hs_color (individual colour addresses) and Fan.turn_on(speed) (switch + speed address): a fixed battery of 53 values of every Python kind (integers around every octet/word boundary, floats incl. integral ones, nan, infinities, bool, None, str, bytes, lists, tuples, dicts, object()) plus, for structured types, the decoded all-zero value with each field replaced by 13 values and its dict form with each field replaced by 12 values (infinities and nan among them) / removed; a call either raises ConversionError with nothing queued or queues telegrams that serialize into a cEMI frame")
 def every_type_refuses_at_the_call_or_queues_a_serializable_telegram(kind, i):
     import asyncio
 
